@@ -1,4 +1,4 @@
-//@unit U16 props=C01,C03,C08,C09,C11,C12,C13,C14,C15 rlimit=150 RenetClient::get_packets_to_send: one budget through all channels, every payload fits (renet/src/remote_connection.rs)
+//@unit U16 props=C01,C02,C03,C06,C08,C09,C11,C12,C13,C14,C15 rlimit=150 RenetClient::get_packets_to_send: one budget through all channels, every payload fits (renet/src/remote_connection.rs)
 #![feature(allocator_api)]
 #![allow(unused_imports, dead_code, unused_variables, unused_mut)]
 use vstd::prelude::*;
